@@ -49,6 +49,19 @@ for _m, _t in nc.POWTERM_WITNESSES:  # integer powers of single-term forms: thro
     WITNESSES.append(dict(modes=_m, tree=_t, grid=[[0], [1], [2], [3]] if _m == ["B"] else [[-2], [0], [1], [3]], kind="whole"))
 
 
+def _bin_grid(modes):
+    import itertools
+    pts = []
+    for conf in itertools.product((0, 1), repeat=sum(m in "SF" for m in modes)):
+        it = iter(conf)
+        pts.append([next(it) if m in "SF" else 1 for m in modes])
+    return pts[:8]
+
+
+for _m, _l, _r in nc.SIGN_WITNESSES:  # spin modes next to fermions: every branch of the fermionic sign rule
+    WITNESSES.append(dict(modes=_m, tree=["mul", _l, _r], grid=_bin_grid(_m), kind="witness"))
+
+
 def gen_case(rng, kind=None):
     modes = nc.rand_modes(rng)
     kind = kind or rng.choice(
